@@ -210,6 +210,21 @@ CHECKS = {
         note="the eager Struct/Array parse of the same members is the reference; no claim when the eager parse rejects; ==, in, .get and "
              "negative indices are not claimed; documented cross-reference restrictions respected",
         design="§3 C16"),
+    "C17": dict(
+        technique="explicit-state exploration of call histories over a pool of sharing constructs with a deep state fingerprint (closure argument), stateless schedule enumeration of 2 threads under a line-granularity controlled scheduler with iterative preemption bounding, and exhaustive entry-point enumeration",
+        text="(a) 66 public calls (parse/build/sizeof/compile, succeeding and failing at every member position, inside Select, "
+             "GreedyRange, Bitwise, compiled twins, context-parameterised transforms, a user lambda, a re-entrant parse) on a pool of 18 "
+             "constructs that share sub-constructs and library singletons: every history of length <=2 (<=3 thorough over a reduced third "
+             "alphabet) runs on a fresh pool and every call's result must equal the result on a pristine pool; after every single call a "
+             "deep fingerprint of all pool objects, of the construct modules' data globals and of class attributes must be unchanged, so the "
+             "single reachable state is closed under all events. (b) 16 collision-forced call pairs run as two threads under a "
+             "sys.settrace scheduler that owns every source line of construct/ as a scheduling point; all schedules with <=1 (quick) / <=2 "
+             "(thorough) preemptions at every position are executed and each thread's result must equal its sequential result; a failing "
+             "schedule is replayed and must reproduce. (c) parse on bytes/bytearray/memoryview/file and parse_stream at offsets 0/1/3 "
+             "(value and consumed length), build/build_stream/build_file, for all context-free T1-T2 terms and Union/Peek/Optional extras.",
+        note="scheduler granularity is a source line (no preemption between bytecodes, no free-threaded memory model); the number of "
+             "distinct outcomes per thread pair is reported (1 on a stateless library; a hoisted-scratch-buffer mutant yields several)",
+        design="§2.6, §3 C17"),
 }
 
 PENDING_REASON = "check not built yet in this round (see DESIGN.md §7 build order); it will be decided by the same bounded-exhaustive engine"
